@@ -192,8 +192,16 @@ def run_treepath(item, rec):
             def harness(ctx, order=order, case=case):
                 tree = ContractionTree.from_path(inputs, output, size, ssa_path=ssa)
                 so = SymOrder() if order == "sym" else order
-                path = tree.get_path(so)
-                spath = tree.get_ssa_path(so)
+
+                def viol(m):
+                    d = dict(case=case, signature=["C10b", n, str(ssa), str(order)])
+                    if isinstance(so, SymOrder):
+                        d["order_keys"] = [[sorted(nd), symx.eval_model(m, k)] for nd, k in so.keys.items()]
+                    return d
+
+                with rec.guarded(ctx, "tree->path->tree", viol):
+                    path = tree.get_path(so)
+                    spath = tree.get_ssa_path(so)
                 a = interp_linear(path, n)
                 b = interp_ssa(spath, n)
                 ok = a is not None and b is not None
@@ -203,12 +211,6 @@ def run_treepath(item, rec):
                     t2 = ContractionTree.from_path(inputs, output, size, path=path)
                     t3 = ContractionTree.from_path(inputs, output, size, ssa_path=spath)
                     ok = set(t2.children) == set(tree.children) == set(t3.children) and t2.is_complete() and t3.is_complete()
-
-                def viol(m):
-                    d = dict(case=case, signature=["C10b", n, str(ssa), str(order)])
-                    if isinstance(so, SymOrder):
-                        d["order_keys"] = [[sorted(nd), symx.eval_model(m, k)] for nd, k in so.keys.items()]
-                    return d
 
                 rec.refute(ctx, not ok, "tree->path->tree", viol)
 
@@ -328,7 +330,10 @@ def replay(v):
             keys = {frozenset(nd): k for nd, k in v.get("order_keys", [])}
             order = lambda node: keys.get(node, 0)  # noqa
         tree = ContractionTree.from_path(inputs, "", size, ssa_path=ssa)
-        path, spath = tree.get_path(order), tree.get_ssa_path(order)
+        try:
+            path, spath = tree.get_path(order), tree.get_ssa_path(order)
+        except Exception as e:  # noqa
+            return True, f"get_path / get_ssa_path with order keys {v.get('order_keys', case['order'])} raised {e!r}"
         a, b = interp_linear(path, n), interp_ssa(spath, n)
         if a is None or b is None:
             return True, f"emitted path refers to ids that do not exist yet: {path} / {spath}"
